@@ -344,6 +344,15 @@ func (c *Ctx) Method(rel, typ, name string) *types.Func {
 }
 
 func (c *Ctx) FuncDecl(rel, name string) *ast.FuncDecl { return c.Decl(c.Func(rel, name)) }
+
+// FuncDeclX / MethodDeclX: the declaration with the helpers extracted from it put back (expand.go), for
+// rules that look for constructs inside one function.
+func (c *Ctx) FuncDeclX(rel, name string) *ast.FuncDecl {
+	return c.Expand(c.Pkg(rel), c.FuncDecl(rel, name))
+}
+func (c *Ctx) MethodDeclX(rel, typ, name string) *ast.FuncDecl {
+	return c.Expand(c.Pkg(rel), c.MethodDecl(rel, typ, name))
+}
 func (c *Ctx) MethodDecl(rel, typ, name string) *ast.FuncDecl {
 	return c.Decl(c.Method(rel, typ, name))
 }
